@@ -245,7 +245,7 @@ def replay_select(which, vals, k):
 # ---------------------------------------------------------------- jobs
 def jobs(tier, seed):
     out = []
-    L = 5 if tier == 'quick' else 7
+    L = 5 if tier == 'quick' else 6
     for kind in ('min', 'max'):
         # (a) every script of <= L operations, all keys symbolic
         for L_ in range(1, L + 1):
@@ -303,7 +303,7 @@ def jobs(tier, seed):
 
 
 def bounds_text(tier):
-    L = 5 if tier == 'quick' else 7
+    L = 5 if tier == 'quick' else 6
     return (f"(a) every operation script of <= {L} ops over {{push,pop,peek,decrease_key,remove}} with every target choice, all "
             f"keys symbolic integers, followed by a full drain; (b) deep scripts: 4..{8 if tier == 'quick' else 9} pushes with "
             f"concrete keys (increasing/decreasing/all-equal) + pop, then {2 if tier == 'quick' else 3} engine-chosen ops with "
